@@ -18,6 +18,7 @@ import (
 	"compress/gzip"
 	"net/http"
 	"strconv"
+	"strings"
 )
 
 // ResponseFilter determines if the response should be gzipped.
@@ -45,12 +46,18 @@ type SkipCompressedFilter struct{}
 // ShouldCompress returns true if served file is not already compressed
 // encodings via https://developer.mozilla.org/en-US/docs/Web/HTTP/Headers/Content-Encoding
 func (n SkipCompressedFilter) ShouldCompress(w http.ResponseWriter) bool {
-	switch w.Header().Get("Content-Encoding") {
-	case "gzip", "compress", "deflate", "br", "zstd":
-		return false
-	default:
-		return true
+	// Any content coding other than identity means the body is encoded
+	// already, however the coding is spelled (x-gzip, GZIP) and also
+	// when several are listed (deflate, gzip).
+	for _, value := range w.Header()["Content-Encoding"] {
+		for _, coding := range strings.Split(value, ",") {
+			coding = strings.TrimSpace(coding)
+			if coding != "" && !strings.EqualFold(coding, "identity") {
+				return false
+			}
+		}
 	}
+	return true
 }
 
 // ResponseFilterWriter validates ResponseFilters. It writes
